@@ -26,6 +26,7 @@ CONSTANTS
                               \*       live-mode channel it found closed (event_stream.rs:111-115, 136-142)
     SelectAllFifo,            \* TRUE: refine the order in which the manager stream takes events of different sessions
                               \*       to the one futures-util's SelectAll really uses (wake order, round robin)
+    Defect_ResolveNoTerminal, \* TRUE: as before the repair - `store.resolve(..).await.map_err(..)?` (:128-132) returns without any event
     Defect_SyncSpin           \* TRUE: as before /repo 3bc10a0 - stream end in LogSync's Sync state -> `loop { select! { else => {} } }` spins
 
 Range(s) == {s[k] : k \in 1..Len(s)}
@@ -51,6 +52,7 @@ DedupInsert(d, x, cap) ==
      inbox/eos inbound stream            liveq    live-mode channel (ToSync items)
      sinkOps   sink operations so far (each send, each close); failAt: the one that fails
      broken    the sink failed once (every later operation fails too)
+     storeFail TopicStore::resolve fails for this session
      dedup     the ring                  liveRes  result of the live loop ("-" before)
      res       "run" | "ok" | "err" | "spin"
      sent, ev  history: written messages, emitted events
@@ -62,7 +64,7 @@ NewSession(pc, live, nOut, failAt) ==
     [pc |-> pc, live |-> live, nOut |-> nOut, burstDone |-> (nOut = 0), cap |-> DedupCap,
      doneSent |-> FALSE, doneRecv |-> FALSE, closeSent |-> FALSE,
      inbox |-> <<>>, eos |-> FALSE, liveq |-> <<>>,
-     sinkOps |-> 0, failAt |-> failAt, broken |-> FALSE, ok |-> TRUE,
+     sinkOps |-> 0, failAt |-> failAt, broken |-> FALSE, ok |-> TRUE, storeFail |-> FALSE,
      dedup |-> <<>>, liveRes |-> None, res |-> "run",
      sent |-> <<>>, ev |-> <<>>, nAcc |-> 0, evAt |-> <<>>, sentAt |-> <<>>]
 
@@ -156,7 +158,11 @@ LiveFromStream(p) ==   \* topic_log_sync.rs:254-313
 
 Micro(p) ==
     CASE p.pc = "Start" ->      \* documented: SessionStarted "is always sent" (:464-467); emitted nowhere
-            {[(IF Defect_NoSessionStarted THEN p ELSE Emit(p, "SessionStarted", None)) EXCEPT !.pc = "SendHave"]}
+            {[(IF Defect_NoSessionStarted THEN p ELSE Emit(p, "SessionStarted", None)) EXCEPT !.pc = "Resolve"]}
+      [] p.pc = "Resolve" ->    \* store.resolve(&self.topic) (:128-132)
+            {IF ~p.storeFail THEN [p EXCEPT !.pc = "SendHave"]
+             ELSE IF Defect_ResolveNoTerminal THEN Finish(p, "err")
+                  ELSE Finish(Emit(p, "Failed", None), "err")}
       [] p.pc = "SendHave" ->   \* store.resolve, get_log_heights, sink.send(Have) (log_sync.rs:121-135)
             {LET q == TrySend(p, Msg("Have", None)) IN IF q.ok THEN [q EXCEPT !.pc = "RecvHave"] ELSE SyncErr(q)}
       [] p.pc = "RecvHave" ->   \* log_sync.rs:136-157
@@ -258,6 +264,7 @@ CONSTANTS
     LivePayloads,   \* operations the environment may put on the live-mode channel (lifecycle machine)
     MaxN, MaxR,     \* lifecycle machine: local operations to send / remote operations to receive
     MaxFailAt,      \* lifecycle machine: the sink operation that fails ranges over 0..MaxFailAt
+    StoreFaults,    \* lifecycle machine: {FALSE} or BOOLEAN - may TopicStore::resolve fail
     MaxFaults,      \* lifecycle machine: remote misbehaviours per behaviour (wrong message, early end)
     MaxLiveIn,      \* remote messages in the live phase, per session
     MaxLiveQ        \* lifecycle machine: items put on the live-mode channel by the environment
@@ -355,8 +362,9 @@ NoMgr == [bq |-> [s \in Sessions |-> <<>>], rq |-> <<>>, map |-> Sessions, dd |-
 (* Machine 1 (C22): one session from the start, scripted remote, faults    *)
 
 LifecycleInit ==
-    /\ \E live \in BOOLEAN, n \in 0..MaxN, r \in 0..MaxR, f \in 0..MaxFailAt :
-          /\ ss = [s \in Sessions |-> NewSession("Start", live, n, f)]
+    /\ \E live \in BOOLEAN, n \in 0..MaxN, r \in 0..MaxR, f \in 0..MaxFailAt, sf \in StoreFaults :
+          /\ sf => (f = 0 /\ n = 0 /\ r = 0)
+          /\ ss = [s \in Sessions |-> [NewSession("Start", live, n, f) EXCEPT !.storeFail = sf]]
           /\ rem = [s \in Sessions |-> NewRemote(r)]
     /\ mgr = NoMgr
     /\ topicOf = [s \in Sessions |-> CHOOSE t \in TopicNames : TRUE]
